@@ -544,6 +544,7 @@ def descendants(kb, i):
 
 def gen_c20(ctx, n):
     rng = ctx.rng("c20")
+    rng2 = ctx.rng("c20reask")
     scs, metas = [], []
     for _ in range(n):
         kb = gen_prop.gen_kb(rng, weighted=rng.random() < 0.3, nforms=rng.choice([3, 4, 5, 6]), twins=0.1)
@@ -573,6 +574,8 @@ def gen_c20(ctx, n):
             q = rng.choice(cands)
             ops.append([6, q, rng.choice([0, 0, 1])])      # converge=True: keep reasoning after the query is proved -- inside the source's sub-graph
             ops.append([5, rng.choice([-1, q]), 30])
+            if ops[-1][1] == q and rng2.random() < 0.6:
+                ops.append([5, q, 30])      # the query asked again straight away: nothing left to do below it, still local
             nq = len(ops)
             for _r in range(4):
                 ops += all_node_ops(kb)
